@@ -262,8 +262,13 @@ LaneDiff(rec, prev) ==
             \cup (IF ~WritesVcc(rec) /\ rec.post.vcc # st.vcc THEN {"flags"} ELSE {})
       ins == TLCEval([k \in Lanes |-> LaneIn(rec, k)])
       outs == TLCEval([k \in Lanes |-> LaneOut(rec, k)])
-      lanefn == IF ~crossLane /\ ~memop /\ \E j \in 1..32 : act(2 * j - 1) /\ act(2 * j)
-                                           /\ ins[2 * j - 1] = ins[2 * j] /\ outs[2 * j - 1] # outs[2 * j]
+      \* records built to have many lanes with identical inputs ("dup", "nbr"): every pair of active lanes
+      allpairs == Has(rec, "tag") /\ rec.tag \in {"dup", "nbr"}
+      lanefn == IF ~crossLane /\ ~memop /\
+                   (\/ \E j \in 1..32 : act(2 * j - 1) /\ act(2 * j)
+                                        /\ ins[2 * j - 1] = ins[2 * j] /\ outs[2 * j - 1] # outs[2 * j]
+                    \/ allpairs /\ \E j \in Lanes, k \in Lanes : j < k /\ act(j) /\ act(k)
+                                                               /\ ins[j] = ins[k] /\ outs[j] # outs[k])
                 THEN {"lanefn"} ELSE {}
       pm(k) == rec.perm[k] + 1
       twin == Has(rec, "perm") /\ prev.id = rec.pair /\ ~Has(prev, "panic")
